@@ -78,7 +78,7 @@ def generate(seed, tier):
     if rng.random() < 0.002:            # size-dependent fast paths: a few runs work on very long records
         base_len = rng.choice([(1 << 17) + 1, (1 << 20) + 3, 300007])
     cls_bias = rng.choice([None, "E", "O"])
-    w = {"new": 5, "binop": 12, "slice": 5, "copy": 2, "call": 2, "scribble": rng.choice([0, 2, 4]),
+    w = {"new": 5, "renew": 2, "binop": 12, "slice": 5, "copy": 2, "call": 2, "scribble": rng.choice([0, 2, 4]),
          "freeze": rng.choice([0, 1, 2]), "gv": rng.choice([0, 1]), "drop": 1}
     kinds = [k for k, c in w.items() for _ in range(c)]
     ops = []
@@ -88,6 +88,12 @@ def generate(seed, tier):
     ops.append(_gen_new(rng, base_len, cls_bias))
     for _ in range(rng.randint(10, 38)):
         k = rng.choice(kinds)
+        if k == "renew":
+            # the same constructor call again (same text, same values): must give a fresh, correct object whatever
+            # happened to the first one meanwhile
+            olds = [o for o in ops if o.get("op") == "new"]
+            ops.append(dict(rng.choice(olds)))
+            continue
         if k == "new":
             ops.append(_gen_new(rng, base_len, cls_bias if rng.random() < 0.8 else None))
         elif k == "binop":
